@@ -134,9 +134,10 @@ pub fn process(topo: &RTopo, asx: usize, in_if: u16, path: &mut RStdPath, dst_ia
         }
         return if bad.is_empty() { Outcome::Deliver } else { Outcome::Reject(bad) };
     }
-    if addressed_here {
-        bad.insert(Rule::DestinationNotAtEnd);
-    }
+    // (A packet addressed to this AS whose path continues is refused by the open-source reference
+    // router as a sanity check; the data-plane rules proper do not require it, so it is not part
+    // of this reference: `Rule::DestinationNotAtEnd` is never raised.)
+    let _ = addressed_here;
 
     // effective cross-over: segment change that is not a peering hop
     let mut eff_xover = false;
